@@ -10,7 +10,7 @@ def run(chk):
     libs = _compose.load(_compose.KERNEL_LIBS, chk)
     _compose.obligations(chk, "C03", libs)
     for lib in libs:
-        lib.run_family(chk, "C03")
+        _compose.run_lib(lib, chk, "C03")
     for f in _compose.load(["_funcs"], chk):
         if hasattr(f, "run_metamorphic"):
             f.run_metamorphic(chk)
